@@ -1091,6 +1091,16 @@ def main2():
         report["kernels"]["agent_candidate_pair_priority"] = {"file": "agent/agent.c"}
     except Unsupported as e:
         report["errors"].append(f"selection kernel: {e}")
+    try:
+        import extract_flow
+        sp = extract_flow.SPEC_INBOUND
+        fpath = os.path.join(REPO, sp["file"])
+        d = ast_of(fpath, sp["fn"])
+        txt, info = extract_flow.translate(sp, d, open(fpath).read(), consts, Unsupported, REPO)
+        open(os.path.join(GEN, "InboundStun.lean"), "w").write(txt)
+        report["kernels"][sp["fn"] + "(flow skeleton)"] = dict(info, file=sp["file"])
+    except Unsupported as e:
+        report["errors"].append(f"agent/conncheck.c:conn_check_handle_inbound_stun: {e}")
     out.append("end Nice.Gen\n")
     open(os.path.join(GEN, "Kernels.lean"), "w").write("\n".join(out))
     with open(os.path.join(GEN, "Tables.lean"), "w") as f:
